@@ -205,7 +205,17 @@ pub fn codec_case(case: &Value, dispatch: Dispatch, r: &mut Report) {
         }
     }
 
-    // --- C08: every strict prefix is rejected
+    // --- C08: every strict prefix is rejected, also of the alternative legal form
+    if let Some(alt) = case.get("alt").filter(|a| a.is_array()).map(bytes_of).filter(|a| *a != b) {
+        for k in 0..alt.len() {
+            r.count("prefix_alt");
+            let got = ops.decode(&alt[..k]);
+            if !got.is_err() {
+                let p: &[&str] = if got.is_panic() { &["C08", "C05"] } else { &["C08"] };
+                r.finding("prefix_alt", p, json!({"ty": ops.rust_name(), "full": alt, "cut": k, "got": dec_json(&got)}));
+            }
+        }
+    }
     for k in 0..b.len() {
         r.count("prefix");
         let got = ops.decode(&b[..k]);
